@@ -2439,6 +2439,10 @@ impl PropertiesParse for Properties {
             DecodeResult::Ok(vbi, cons) => (vbi, cons),
             _ => return Err(MqttError::MalformedPacket),
         };
+        if consumed != prop_len.size() {
+            // [MQTT-1.5.5-1] the Property Length must use the minimum number of bytes
+            return Err(MqttError::MalformedPacket);
+        }
 
         let mut cursor = consumed;
         let mut props = Properties::new();
